@@ -2364,8 +2364,23 @@ evhttp_get_body_length(struct evhttp_request *req)
 		req->ntoread = -1;
 	} else {
 		char *endp;
-		ev_int64_t ntoread = evutil_strtoll(content_length, &endp, 10);
-		if (*content_length == '\0' || *endp != '\0' || ntoread < 0) {
+		ev_int64_t ntoread;
+		struct evkeyval *header;
+		/* Several Content-Length fields with different values: invalid
+		 * framing, never pick one of them (RFC 9112 6.3). */
+		TAILQ_FOREACH(header, headers, next) {
+			if (evutil_ascii_strcasecmp(header->key, "Content-Length") == 0 &&
+			    strcmp(header->value, content_length) != 0) {
+				event_debug(("%s: conflicting content lengths: %s, %s",
+					__func__, content_length, header->value));
+				return (-1);
+			}
+		}
+		/* Content-Length = 1*DIGIT: strtoll() also takes leading white
+		 * space and a sign, and saturates on overflow. */
+		ntoread = evutil_strtoll(content_length, &endp, 10);
+		if (!EVUTIL_ISDIGIT_(*content_length) || *endp != '\0' ||
+		    ntoread < 0 || ntoread == EV_INT64_MAX) {
 			event_debug(("%s: illegal content length: %s",
 				__func__, content_length));
 			return (-1);
